@@ -275,8 +275,11 @@ class Gen:
 
     def c_compare(self, ts, depth):
         t = self.d(small_type(self.d(st.integers(0, 1)), comparable=True))
+        if self.d(st.integers(0, 2)) == 0:   # the leaves whose order is not the order of their spelling get a third of the comparisons
+            leaf = T(self.pick(["address", "address", "key", "key_hash", "signature", "timestamp", "bool"]))
+            t = self.pick([leaf, leaf, T("pair", leaf, T("nat")), T("option", leaf), T("or", leaf, T("unit"))])
         a = self.d(gt.values(t))
-        b = self.d(gt.near(t, a)) if self.d(st.booleans()) else a
+        b = self.d(gt.near(t, a)) if self.d(st.integers(0, 3)) else a
         if rv.compare(t, a, b) is rv.UNCONSTRAINED:
             b = a
         code = [push(t, b), push(t, a), P("COMPARE")]
